@@ -23,6 +23,18 @@ type recWriter struct {
 	tcp    bool
 }
 
+func newRecWriterTCP(remote, local string) *recWriter {
+	ra, _ := net.ResolveTCPAddr("tcp", remote)
+	la, _ := net.ResolveTCPAddr("tcp", local)
+	return &recWriter{remote: ra, local: la, tcp: true}
+}
+
+func newRecWriterUDP(remote, local string) *recWriter {
+	ra, _ := net.ResolveUDPAddr("udp", remote)
+	la, _ := net.ResolveUDPAddr("udp", local)
+	return &recWriter{remote: ra, local: la}
+}
+
 func newRecWriter(ip string) *recWriter {
 	return &recWriter{remote: &net.UDPAddr{IP: net.ParseIP(ip), Port: 40000}, local: &net.UDPAddr{IP: net.ParseIP("127.0.0.1"), Port: 53}}
 }
